@@ -207,7 +207,7 @@ func oblOK(o *Obligation) bool {
 // vf lock: regenerate obligations.lock and undecided.txt from the current tree (reference tree only).
 func cmdLock(args []string) {
 	fs := flag.NewFlagSet("lock", flag.ExitOnError)
-	timeout := fs.Int("timeout", 10, "solver timeout (s)")
+	timeout := fs.Int("timeout", 25, "solver timeout (s)")
 	fs.Parse(args)
 	p, err := loadProg(repoDir())
 	if err != nil {
@@ -239,7 +239,7 @@ func cmdLock(args []string) {
 			}
 			if oblOK(o) {
 				// only obligations that discharge comfortably enter the lock
-				if o.Kind != "cover" && o.Solver != "case-split" && o.TimeS > float64(*timeout)/2 {
+				if o.Kind != "cover" && o.Solver != "case-split" && o.TimeS > 12 {
 					und = append(und, o.Name+"\tslow: "+fmt.Sprintf("%.1fs", o.TimeS))
 					continue
 				}
@@ -307,9 +307,9 @@ func cmdCheck(args []string) {
 		return funcTags(fi)[id]
 	}
 	gens := generate(p, want)
-	timeout := 10
+	timeout := 15
 	if *tier == "thorough" {
-		timeout = 30
+		timeout = 40
 	}
 	s, _ := newSolver(timeout, *tier == "thorough")
 	defer s.close()
@@ -342,6 +342,23 @@ func cmdCheck(args []string) {
 		}
 		return true
 	})
+	// a locked obligation that fails under parallel load is retried alone with a longer limit before it counts
+	for _, g := range gens {
+		for _, o := range g.obls {
+			if _, locked := lock[o.Name]; locked && o.Status != "" && !oblOK(o) && hasProp(propsOf(g.F, o), id) {
+				rs, _ := newSolver(timeout*3, false)
+				rs.prelude, rs.lean = s.prelude, s.lean
+				rs.cacheDir = ""
+				first := o.Status
+				rs.solve(o, g)
+				s.timeS += rs.timeS
+				rs.close()
+				if oblOK(o) {
+					fmt.Printf("note: %s needed a sequential retry (first attempt: %s)\n", o.Name, first)
+				}
+			}
+		}
+	}
 	var violations []map[string]interface{}
 	nObl, nDis := 0, 0
 	backend := map[string]int{}
